@@ -71,7 +71,8 @@ def roleConflictResponse (m : Msg) (pwd : String) : Msg :=
 
 /-- what a lost conflict does to the agent: flip the role, fresh selector (`setSelector()`), nothing else -/
 def switched (a1 : Agent) (now : Nat) : Agent :=
-  { a1 with controlling := !a1.controlling, selStart := now, nominatedPair := none, lastNomination := none }
+  { a1 with controlling := !a1.controlling, selStart := now, nominatedPair := none, lastNomination := none,
+            answeredNomination := none }
 
 /-- For EVERY agent state, local candidate, source and authenticated Binding request that carries the
 receiver's own role (`m.role = some (a.controlling, tb)`) from a source that resolves to `r`
